@@ -1,118 +1,11 @@
 // C07 — equality and ordering are deep, layout-independent and mutually consistent
-#include "../core.hpp"
-
-#include <boost/multi/array.hpp>
-
-#include <numeric>
+#include "../operands.hpp"
 
 namespace multi = boost::multi;
 
 namespace {
 
-// logical value: extents + elements in canonical order
-struct Val {
-	std::vector<long> ext;
-	std::vector<int> v;
-	long n() const { long r = 1; for(auto e : ext) { r *= e; } return r; }
-};
-
-// ---- model: nested-vector semantics computed on (offset, dim) recursively
-bool m_equal(Val const& a, Val const& b) { return a.ext == b.ext && a.v == b.v; }
-
-long sub_n(Val const& a, std::size_t dim) { long r = 1; for(std::size_t k = dim; k < a.ext.size(); ++k) { r *= a.ext[k]; } return r; }
-
-// lexicographic order over the leading dimension, recursively; a proper prefix is smaller
-bool m_less(Val const& a, long oa, Val const& b, long ob, std::size_t dim) {
-	if(dim == a.ext.size()) { return a.v[static_cast<std::size_t>(oa)] < b.v[static_cast<std::size_t>(ob)]; }
-	long na = a.ext[dim], nb = b.ext[dim];
-	long sa = sub_n(a, dim + 1), sb = sub_n(b, dim + 1);
-	for(long i = 0; i < std::min(na, nb); ++i) {
-		if(m_less(a, oa + i*sa, b, ob + i*sb, dim + 1)) { return true; }
-		if(m_less(b, ob + i*sb, a, oa + i*sa, dim + 1)) { return false; }
-	}
-	return na < nb;
-}
-bool m_less(Val const& a, Val const& b) { return m_less(a, 0, b, 0, 0); }
-
-void print(vp::Txt& t, Val const& a) {
-	t << '(';
-	for(std::size_t k = 0; k < a.ext.size(); ++k) { if(k) { t << 'x'; } t << a.ext[k]; }
-	t << ")[";
-	for(std::size_t k = 0; k < a.v.size() && k < 40; ++k) { t << a.v[k]; }
-	if(a.v.size() > 40) { t << ".."; }
-	t << ']';
-}
-
-template<int D, std::size_t... I>
-multi::extensions_t<D> make_ext(long const* e, std::index_sequence<I...>) { return multi::extensions_t<D>{multi::iextension{0, e[I]}...}; }
-template<int D> multi::extensions_t<D> make_ext(long const* e) { return make_ext<D>(e, std::make_index_sequence<static_cast<std::size_t>(D)>{}); }
-
-template<int D> long rowmajor(long const* ext, long const* t) { long p = 0; for(int k = 0; k < D; ++k) { p = p*ext[k] + t[k]; } return p; }
-
-template<int D> bool next_tuple(long const* ext, long* t) {
-	for(int k = D - 1; k >= 0; --k) { if(++t[k] < ext[k]) { return true; } t[k] = 0; }
-	return false;
-}
-
-enum Kind { K_ARRAY, K_REF, K_VIEW, K_TRANSPOSED, K_ROTATED, K_PADDED, K_STRIDED, K_LONG, K_CVIEW, NKINDS };
-char const* const kind_name[] = {"array", "array_ref", "A()", "transposed-storage", "rotated-storage", "padded-block", "strided(2)", "array<long>", "const-A()"};
-
-template<int D, class S, std::size_t... I>
-decltype(auto) block_of(S& s, long const* e, std::index_sequence<I...>) { return s(multi::irange{1, 1 + e[I]}...); }
-
-// realise the value as a library object of the requested kind and call f(object const&)
-template<int D, class T = int, class F>
-void with_operand(Val const& a, int kind, F&& f) {
-	long e[D]; for(int k = 0; k < D; ++k) { e[k] = a.ext[static_cast<std::size_t>(k)]; }
-	long se[D]; for(int k = 0; k < D; ++k) { se[k] = e[k]; }
-	auto fillmap = [&](auto& S, auto&& map, T pad) {
-		long n = 1; for(int k = 0; k < D; ++k) { n *= se[k]; }
-		auto* p = S.data_elements();
-		for(long i = 0; i < n; ++i) { p[i] = pad; }
-		if(a.n() == 0) { return; }
-		long t[D] = {}; long st[D]; long idx = 0;
-		do { map(t, st); p[rowmajor<D>(se, st)] = static_cast<T>(a.v[static_cast<std::size_t>(idx++)]); } while(next_tuple<D>(e, t));
-	};
-	auto ident = [](long const* t, long* st) { for(int k = 0; k < D; ++k) { st[k] = t[k]; } };
-	if constexpr(D >= 2) {
-		if(kind == K_TRANSPOSED) {
-			std::swap(se[0], se[1]);
-			multi::array<T, D> S(make_ext<D>(se));
-			fillmap(S, [](long const* t, long* st) { for(int k = 0; k < D; ++k) { st[k] = t[k]; } std::swap(st[0], st[1]); }, T{7});
-			auto&& w = S.transposed(); f(std::as_const(w)); return;
-		}
-		if(kind == K_ROTATED) {
-			for(int k = 0; k < D; ++k) { se[(k + 1) % D] = e[k]; }
-			multi::array<T, D> S(make_ext<D>(se));
-			fillmap(S, [](long const* t, long* st) { for(int k = 0; k < D; ++k) { st[(k + 1) % D] = t[k]; } }, T{7});
-			auto&& w = S.rotated(); f(std::as_const(w)); return;
-		}
-	}
-	if(kind == K_PADDED) {
-		for(int k = 0; k < D; ++k) { se[k] = e[k] + 2; }
-		multi::array<T, D> S(make_ext<D>(se));
-		fillmap(S, [](long const* t, long* st) { for(int k = 0; k < D; ++k) { st[k] = t[k] + 1; } }, T{7});
-		auto&& w = block_of<D>(S, e, std::make_index_sequence<static_cast<std::size_t>(D)>{}); f(std::as_const(w)); return;
-	}
-	if(kind == K_STRIDED && e[0] >= 1) {
-		se[0] = 2*e[0];
-		multi::array<T, D> S(make_ext<D>(se));
-		fillmap(S, [](long const* t, long* st) { for(int k = 0; k < D; ++k) { st[k] = t[k]; } st[0] = 2*t[0]; }, T{7});
-		auto&& w = S.strided(2);
-		f(std::as_const(w)); return;
-	}
-	if(kind == K_REF) {
-		std::vector<T> buf(static_cast<std::size_t>(a.n()) + 1, T{7});
-		multi::array_ref<T, D> R(make_ext<D>(e), buf.data());
-		fillmap(R, ident, T{7});
-		f(std::as_const(R)); return;
-	}
-	multi::array<T, D> S(make_ext<D>(e));
-	fillmap(S, ident, T{7});
-	if(kind == K_ARRAY) { f(std::as_const(S)); return; }
-	if(kind == K_CVIEW) { f(std::as_const(S)()); return; }  // view with pointer-to-const element pointer
-	auto&& w = S(); f(std::as_const(w));
-}
+using namespace vp::ops;
 
 struct Expect { bool eq, lt, gt; bool empty; };
 Expect expect(Val const& a, Val const& b) { return Expect{m_equal(a, b), m_less(a, b), m_less(b, a), a.n() == 0 || b.n() == 0}; }
